@@ -66,7 +66,7 @@ def showCfg : String :=
   s!"aggrSkipsComments={b rwCfg.aggrSkipsComments} complexMergesParts={b rwCfg.complexMergesParts} " ++
   s!"complexPartStrict={match rwCfg.complexPartStrict with | none => "fwd" | some x => b x} " ++
   s!"recoveryKeepsSemicolon={b rwCfg.recoveryKeepsSemicolon} complexReportsError={b rwCfg.complexReportsError} " ++
-  s!"skipInstanceSkipsComments={b rwCfg.skipInstanceSkipsComments} missingSemicolonReported={b rwCfg.missingSemicolonReported} fillerOnlyForDollar={b rwCfg.fillerOnlyForDollar} errorResyncsFromStart={b rwCfg.errorResyncsFromStart} numberElemReadsNumber={b rwCfg.numberElemReadsNumber} aggrReportsMissingElement={b rwCfg.aggrReportsMissingElement} " ++
+  s!"skipInstanceSkipsComments={b rwCfg.skipInstanceSkipsComments} missingSemicolonReported={b rwCfg.missingSemicolonReported} fillerOnlyForDollar={b rwCfg.fillerOnlyForDollar} errorResyncsFromStart={b rwCfg.errorResyncsFromStart} numberElemReadsNumber={b rwCfg.numberElemReadsNumber} aggrReportsMissingElement={b rwCfg.aggrReportsMissingElement} pcdEatsNextChar={b StepModel.Generated.pcdEatsNextChar} " ++
   s!"intReportsFail={b lexCfg.intReportsFail} realReportsFail={b lexCfg.realReportsFail} " ++
   s!"numberReportsFail={b lexCfg.numberReportsFail} logicalRejectsUnset={b lexCfg.logicalRejectsUnset} " ++
   s!"binaryRejectsEmpty={b lexCfg.binaryRejectsEmpty} dollarKeepsError={b lexCfg.dollarKeepsError}"
